@@ -10,14 +10,21 @@ def isAlpha (b : UInt8) : Bool := isUpper b || isLower b
 
 def strBytes (s : String) : Bytes := s.toUTF8.toList
 
-/-- decimal rendering of a natural number as ASCII bytes (`strconv.FormatInt` for n ≥ 0). -/
-def natDigitsAux : Nat → Nat → Bytes → Bytes
-  | 0, _, acc => acc
-  | fuel+1, n, acc =>
-    let acc' := (UInt8.ofNat (48 + n % 10)) :: acc
-    if n / 10 = 0 then acc' else natDigitsAux fuel (n / 10) acc'
+/-- digits of `n` in base `b`, least significant first; `[0]` for 0. -/
+def digitsRev (b : Nat) (n : Nat) : List Nat :=
+  if _h : b < 2 then [n] else
+  if n < b then [n] else (n % b) :: digitsRev b (n / b)
+termination_by n
+decreasing_by
+  have : 2 ≤ b := by omega
+  have : 0 < n := by omega
+  exact Nat.div_lt_self (by omega) (by omega)
 
-def natDec (n : Nat) : Bytes := natDigitsAux (n+1) n []
+/-- lower-case digit character (big.Int.Text, strconv.FormatInt) -/
+def digitChar (d : Nat) : UInt8 := if d < 10 then UInt8.ofNat (48 + d) else UInt8.ofNat (87 + d)
+
+/-- decimal rendering of a natural number as ASCII bytes (`strconv.FormatInt` for n ≥ 0). -/
+def natDec (n : Nat) : Bytes := (digitsRev 10 n).reverse.map digitChar
 
 def intDec (z : Int) : Bytes :=
   if z < 0 then 45 :: natDec z.natAbs else natDec z.natAbs
